@@ -1,5 +1,7 @@
 """Replay modes: how a TermMachine record is executed and which property's
 clauses are evaluated on it (attribution: one property per verdict)."""
+import json
+
 import numpy as np
 
 import funsor
@@ -18,9 +20,10 @@ def _has_getslice(t):
     return False
 
 
-def _build(rec, interp=None, rename_as_str=False, watch=None, index_style="plain"):
+def _build(rec, interp=None, rename_as_str=False, watch=None, index_style="plain", delta_point_as_tensor=False):
     b = fbuild.Builder(watch=watch)
     b.rename_as_str = rename_as_str
+    b.delta_point_as_tensor = delta_point_as_tensor
     b.index_style = index_style
     if interp is None:
         return b.build(rec["t"])
@@ -1270,6 +1273,13 @@ def c14delta(rec):
     exp = rec["exp"]
     try:
         r = _build(rec)
+    except NotImplementedError:
+        # Number points: Delta.eager_subs applies ops.astype to a python bool; the same program
+        # with the point as a 0-d Tensor exercises the same rules
+        try:
+            r = _build(rec, delta_point_as_tensor=True)
+        except Exception as e:  # noqa
+            return [_verdict("C14", "declined_error", type(e).__name__, str(e)[:100])]
     except Exception as e:  # noqa
         return [_verdict("C14", "declined_error", type(e).__name__, str(e)[:100])]
     v = _eval_check(r, exp, "C14", "delta", need_output=False)
@@ -1284,6 +1294,16 @@ def c14delta(rec):
             return False
         v["feature"] = "reduce_of_nonunit_delta" if nonunit(rec["t"]) else "none"
     return [v]
+
+
+def c14integ(rec):
+    """C14 (Integrate against a point mass): programs of the delta_integ lens whose root is
+    an Integrate with a Delta in its measure; the eager value vs TLC's denotation
+    (sum over v of exp(measure) * integrand)."""
+    t = rec["t"]
+    if t.get("c") != "Integ" or '"Delta"' not in json.dumps(t["measure"]):
+        return []
+    return c14delta(rec)
 
 
 # ---------------------------------------------------------------------------
